@@ -82,9 +82,12 @@ def run_snap(scn):
         cols, rows = make_rows(scn)
         p_in, p1, p2 = (os.path.join(d, n) for n in ("in.csv", "s1.csv", "s2.csv"))
         write_csv(p_in, cols, rows)
-        with quiet():
-            snap_command(p_in, p1, tps, force=True)
-            snap_command(p1, p2, tps, force=True)
+        try:
+            with quiet():
+                snap_command(p_in, p1, tps, force=True)
+                snap_command(p1, p2, tps, force=True)
+        except (Exception, SystemExit) as e:  # noqa: BLE001
+            raise Violation("C20.snap.raises", {"exc": repr(e)[:200], "tps": tps, "extra_col": bool(scn.get("extra_col"))})
         c1, r1 = read_csv(p1)
         if list(c1) != list(cols):
             raise Violation("C20.snap.columns", {"in": cols, "out": c1})
@@ -166,10 +169,13 @@ def run_jitter(scn):
         cols, rows = make_rows(scn)
         p_in, p1, p2, p3 = (os.path.join(d, n) for n in ("in.csv", "j1.csv", "j2.csv", "j3.csv"))
         write_csv(p_in, cols, rows)
-        with quiet():
-            jitter_command(p_in, p1, delta, seed=seed, force=True)
-            jitter_command(p_in, p2, delta, seed=seed, force=True)
-            jitter_command(p_in, p3, delta, seed=(seed or 42) + 1 + scn.get("seed_step", 0), force=True)
+        try:
+            with quiet():
+                jitter_command(p_in, p1, delta, seed=seed, force=True)
+                jitter_command(p_in, p2, delta, seed=seed, force=True)
+                jitter_command(p_in, p3, delta, seed=(seed or 42) + 1 + scn.get("seed_step", 0), force=True)
+        except (Exception, SystemExit) as e:  # noqa: BLE001
+            raise Violation("C20.jitter.raises", {"exc": repr(e)[:200], "delta": delta, "extra_col": bool(scn.get("extra_col"))})
         with open(p1, "rb") as f1, open(p2, "rb") as f2, open(p3, "rb") as f3:
             b1, b2, b3 = f1.read(), f2.read(), f3.read()
         if b1 != b2:
